@@ -20,6 +20,9 @@ type pathExec struct {
 	vals    map[ssa.Value]ssa.Value // loads evaluated at their execution point
 	ints    map[*ssa.Phi]int64      // integer phis folded to constants on this path
 	lenOf   func(call *ssa.Call) (int64, bool)
+	intHook func(v ssa.Value) (int64, bool) // optional: concrete integer value of a parameter / call result
+	inline  func(callee *ssa.Function) bool // optional: static module callees to execute in place
+	tup     map[*ssa.Call][]ssa.Value       // results of inlined multi-result calls
 	start   *ssa.BasicBlock                 // optional: begin here instead of the entry block
 	stopAt  func(b *ssa.BasicBlock) bool    // optional: stop (successfully) when about to enter such a block
 	stopped *ssa.BasicBlock
@@ -52,6 +55,26 @@ func cellKey(addr ssa.Value) (string, bool) {
 func (pe *pathExec) resolve(v ssa.Value) ssa.Value {
 	for i := 0; i < 50; i++ {
 		switch t := v.(type) {
+		case *ssa.Parameter:
+			if c, ok := pe.vals[t]; ok && c != v {
+				v = c
+				continue
+			}
+			return v
+		case *ssa.Call:
+			if c, ok := pe.vals[t]; ok && c != v {
+				v = c
+				continue
+			}
+			return v
+		case *ssa.Extract:
+			if call, ok := t.Tuple.(*ssa.Call); ok {
+				if rs, ok := pe.tup[call]; ok && t.Index < len(rs) {
+					v = rs[t.Index]
+					continue
+				}
+			}
+			return v
 		case *ssa.Phi:
 			if c, ok := pe.phi[t]; ok {
 				v = c
@@ -101,10 +124,16 @@ func (pe *pathExec) run() (ssa.Instruction, string) {
 	pe.phi, pe.mem, pe.visits = map[*ssa.Phi]ssa.Value{}, map[string]ssa.Value{}, map[*ssa.BasicBlock]int{}
 	pe.vals = map[ssa.Value]ssa.Value{}
 	pe.ints = map[*ssa.Phi]int64{}
+	pe.tup = map[*ssa.Call][]ssa.Value{}
+	return pe.exec(pe.fn, pe.start, 0)
+}
+
+// exec runs fn from start (nil = entry) until it returns; inlined callees recurse.
+func (pe *pathExec) exec(fn *ssa.Function, start *ssa.BasicBlock, depth int) (ssa.Instruction, string) {
 	var prev *ssa.BasicBlock
-	b := pe.fn.Blocks[0]
-	if pe.start != nil {
-		b = pe.start
+	b := fn.Blocks[0]
+	if start != nil {
+		b = start
 	}
 	for step := 0; step < pe.maxStep; step++ {
 		if step > 0 && pe.stopAt != nil && pe.stopAt(b) {
@@ -174,6 +203,31 @@ func (pe *pathExec) run() (ssa.Instruction, string) {
 				}
 			case *ssa.Call:
 				pe.calls = append(pe.calls, t)
+				if callee := t.Call.StaticCallee(); callee != nil && callee.Blocks != nil && pe.inline != nil && depth < 3 && callee != fn && pe.inline(callee) {
+					args := t.Call.Args
+					if len(args) == len(callee.Params) {
+						for i, prm := range callee.Params {
+							pe.vals[prm] = pe.resolve(args[i])
+						}
+						end, why := pe.exec(callee, nil, depth+1)
+						switch r := end.(type) {
+						case *ssa.Return:
+							if len(r.Results) == 1 {
+								pe.vals[t] = pe.resolve(r.Results[0])
+							} else {
+								var rs []ssa.Value
+								for _, x := range r.Results {
+									rs = append(rs, pe.resolve(x))
+								}
+								pe.tup[t] = rs
+							}
+						case *ssa.Panic:
+							return end, ""
+						default:
+							return nil, "in " + callee.Name() + ": " + why
+						}
+					}
+				}
 			case *ssa.Return, *ssa.Panic:
 				return in, ""
 			case *ssa.Jump:
@@ -181,7 +235,7 @@ func (pe *pathExec) run() (ssa.Instruction, string) {
 			case *ssa.If:
 				val, known := pe.oracle(pe, t.Cond)
 				if !known {
-					return nil, fmt.Sprintf("branch condition not decidable by the oracle: %s = %s (%s)", t.Cond.Name(), t.Cond.String(), pe.fn.Prog.Fset.Position(in.Pos()))
+					return nil, fmt.Sprintf("branch condition not decidable by the oracle: %s = %s (%s)", t.Cond.Name(), t.Cond.String(), fn.Prog.Fset.Position(in.Pos()))
 				}
 				prev = b
 				if val {
@@ -227,6 +281,16 @@ func (pe *pathExec) intOf(v ssa.Value, d int) (int64, bool) {
 	}
 	if k, ok := constInt(v); ok {
 		return k, true
+	}
+	if pe.intHook != nil {
+		if k, ok := pe.intHook(v); ok {
+			return k, true
+		}
+	}
+	if r := pe.resolve(v); r != v {
+		if _, isPhi := v.(*ssa.Phi); !isPhi {
+			return pe.intOf(r, d+1)
+		}
 	}
 	switch t := v.(type) {
 	case *ssa.Phi:
